@@ -35,7 +35,7 @@ def run(ctx):
                 "1..6 plateaus, initial temperature in {1/2,1,3/2,5,10}) and every iteration of Saem.tla with the "
                 "temperature as an exact rational (TempStart, TempFloor, TempMonotone, TempOnlyAtBoundaries, "
                 "TempOneAfterAnnealing, NoAnnealingIsOne, AcceptedCompletes, Termination); sampled configurations are run "
-                "as real fits, the temperature after every iteration is validated by TLC against SaemTrace.tla "
+                "as real fits (a quarter of them as two consecutive runs of one algorithm object), the temperature after every iteration is validated by TLC against SaemTrace.tla "
                 "(equal to the rational within 8*P ulps, literally 1.0 when the specification says 1); proposal scales: "
                 "Sampler.tla StdEnvelope + recorded sampler adaptation (see C03 driver). "
                 "Distinct = distinct (kind, n_iter, annealing spec, plateaus, T0).")
@@ -57,7 +57,9 @@ def run(ctx):
         for i, c in enumerate(cfgs):
             w = os.path.join(ctx.tmp, f"w_{kind}_{i}")
             os.makedirs(w, exist_ok=True)
-            evs, info = saem.run_config(kind, c, seed=ctx.seed + i, workdir=w)
+            # every fourth configuration: the same algorithm object calibrates two fresh models in a row (two runs for the
+            # specification: each must start at the initial temperature)
+            evs, info = saem.run_config(kind, c, seed=ctx.seed + i, workdir=w, reuse_algo=(i % 4 == 1))
             events += evs
             if info.get("vars"):
                 vars_, params = info["vars"], info["params_names"]
